@@ -273,6 +273,10 @@ func init() {
 		errV := st.load(Ptr{Obj: e.globalObj(st, p.Var("ErrKeyNotFound"))})
 		return TupleV{Ptr{}, errV}, true
 	}
+	exact["(*"+bp+"Item).ValueSize"] = func(e *Engine, st *State, fn *ssa.Function, args []Value, retTo *ssa.Call) (Value, bool) {
+		v := st.load(args[0].(Ptr)).(SliceV)
+		return ConstU(uint64(v.Len), 64), true
+	}
 	exact["(*"+bp+"Item).ValueCopy"] = func(e *Engine, st *State, fn *ssa.Function, args []Value, retTo *ssa.Call) (Value, bool) {
 		v := st.load(args[0].(Ptr)).(SliceV)
 		return TupleV{st.newByteSlice(st.sliceBytes(v)), IfaceV{}}, true
